@@ -407,6 +407,8 @@ struct SymbolTableBase {
     declarations: HashMap<String, Declaration>,
     namespaces: HashMap<String, Rc<Namespace>>,
     enclosing: Option<Rc<RefCell<SymbolTableBase>>>,
+    // this scope is the body of a lambda: names found further out are captured by value
+    is_lambda_scope: bool,
 }
 
 impl SymbolTableBase {
@@ -417,6 +419,24 @@ impl SymbolTableBase {
                 Some(enclosing) => enclosing.borrow().lookup_declaration(id),
                 None => None,
             },
+        }
+    }
+
+    /// true if `id` resolves to a declaration outside the innermost enclosing lambda
+    fn is_captured(&self, id: &str) -> bool {
+        if self.declarations.contains_key(id) {
+            return false;
+        }
+        match &self.enclosing {
+            Some(enclosing) => {
+                let enclosing = enclosing.borrow();
+                if self.is_lambda_scope {
+                    enclosing.lookup_declaration(id).is_some()
+                } else {
+                    enclosing.is_captured(id)
+                }
+            }
+            None => false,
         }
     }
 
@@ -464,6 +484,20 @@ impl SymbolTable {
                 ..Default::default()
             })),
         }
+    }
+
+    pub(crate) fn new_lambda_scope(&self) -> Self {
+        Self {
+            base: Rc::new(RefCell::new(SymbolTableBase {
+                enclosing: Some(self.base.clone()),
+                is_lambda_scope: true,
+                ..Default::default()
+            })),
+        }
+    }
+
+    pub(crate) fn is_captured(&self, id: &str) -> bool {
+        self.base.borrow().is_captured(id)
     }
 
     pub(crate) fn lookup_declaration(&self, id: &str) -> Option<Declaration> {
@@ -947,6 +981,15 @@ fn resolve_names_stmt(ctx: &mut StaticsContext, symbol_table: &SymbolTable, stmt
         StmtKind::Assign(lhs, _, rhs) => {
             resolve_names_expr(ctx, symbol_table, lhs);
             resolve_names_expr(ctx, symbol_table, rhs);
+            if let ExprKind::Variable(name) = &*lhs.kind
+                && matches!(symbol_table.lookup_declaration(name), Some(Declaration::Var(_)))
+                && symbol_table.is_captured(name)
+            {
+                ctx.errors.push(Error::GenericWithNode {
+                    msg: "Can't assign to a variable captured by a lambda. Lambdas capture values, not variables".to_string(),
+                    node: lhs.node(),
+                });
+            }
         }
         StmtKind::Continue | StmtKind::Break => {}
         StmtKind::Return(expr) => {
@@ -1040,7 +1083,7 @@ fn resolve_names_expr(ctx: &mut StaticsContext, symbol_table: &SymbolTable, expr
             }
         }
         ExprKind::AnonymousFunction(args, out_ty, body) => {
-            let symbol_table = symbol_table.new_scope();
+            let symbol_table = symbol_table.new_lambda_scope();
             resolve_names_func_helper(ctx, &symbol_table, args, body, out_ty);
         }
         ExprKind::Tuple(exprs) => {
